@@ -55,7 +55,7 @@ PROPS = {
     "C02": {
         "inv": ["BaseWorker.has_workamount_skill", "BaseFacility.has_workamount_skill", "BaseWorker.has_facility_skill",
                 "BaseWorker.get_work_amount_skill_progress", "BaseFacility.get_work_amount_skill_progress",
-                "BaseTask.perform", "BaseWorkflow.perform", "BaseWorkflow.__check_finished",
+                "BaseTask.perform", "BaseWorkflow.perform", "BaseWorkflow.__check_finished", "BaseWorkflow.__check_working",
                 "BaseTask.record_remaining_work_amount", "BaseComponent.update_error_value", "BaseTask.initialize"],
         "static": COMMON_STATIC,
         "level_text": "perform() is verified for all allocations, skills and states: remaining work of a WORKING task drops by exactly "
